@@ -521,7 +521,9 @@ def random_records(rep, rng, nrec):
                 continue
             recs.append(rec)
             rep.case(("rec_nodes", tuple(nodes), mode, tuple(spec["nk"]), tuple(spec["inv"]), deflab, nd, route))
-            last = (path, rec["out"], spec["A"], nd, unit)
+            src = path_out(path)             # with the real label texts (labels=None: whatever the default texts are)
+            src["K"] = unscale(src["K"], nd)
+            last = (path, src, spec["A"], nd, unit)
         elif r < 0.8:
             path, out, A, nd0, unit = last
             f = rng.randint(1, 4)
